@@ -97,6 +97,7 @@ def _single(draw, max_rows):
             mixed = list(draw(st.permutations(names)))
             mixed = [x if draw(st.booleans()) else f"n{j}" for j, x in enumerate(mixed)]
             plan["names"] = mixed
+        plan["form"] = draw(st.sampled_from(["list", "list", "tuple", "generator", "map", "number"]))
     elif op == "modify":
         n = fp["n"]
         pairs = []
@@ -246,8 +247,26 @@ def check(plan, ctx):
         _expect_columns("rename", out, [m.get(x, x) for x in names], [src[x] for x in names])
     elif op == "colnames":
         work = data.deepcopy()
+        form = plan.get("form", "list")
+        if form in ("generator", "map", "number"):
+            # a right-hand side the setter cannot take (no len(), not iterable): whatever it raises, the frame stays as it is
+            wb = build.snap_frame(work)
+            rhs = {"generator": (x for x in plan["names"]), "map": map(str, plan["names"]), "number": 5}[form]
+            try:
+                work.colnames = rhs
+                accepted = True
+            except Exception:
+                accepted = False
+            if not accepted:
+                if build.snap_frame(work) != wb:
+                    raise Violation("a rejected colnames assignment changed the frame", form=form,
+                                    names_after=list(dict.keys(work)), names_before=list(wb[0]))
+                ctx.cls("colnames_assignment_rejected_frame_intact")
+                return
+            ctx.cls("colnames_from_" + form + "_accepted")
+            work = data.deepcopy()
         def assign():
-            work.colnames = list(plan["names"])
+            work.colnames = list(plan["names"]) if form != "tuple" else tuple(plan["names"])
         ctx.call("colnames assignment", assign)
         _expect_columns("colnames assignment", work, plan["names"], [src[x] for x in names])
         for nm in plan["names"]:
